@@ -861,12 +861,24 @@ func supply(dir, src, mode string, args []string) (supplied, error) {
 		s.argv = append([]string{p}, args...)
 		s.after = func() {
 			// if nobody ever opened the pipe for reading the writer is still waiting
+			// (opening the read end lets it go; what it then writes is taken off the pipe so that a
+			// long source cannot make it wait again; closing the read end ends it in any case)
 			if fd, err := syscall.Open(p, syscall.O_RDONLY|syscall.O_NONBLOCK, 0); err == nil {
-				wg.Wait()
+				buf := make([]byte, 1<<16)
+				for i := 0; i < 2000; i++ {
+					n, rerr := syscall.Read(fd, buf)
+					if n == 0 && rerr == nil {
+						break // no writer (any more)
+					}
+					if rerr == syscall.EAGAIN {
+						time.Sleep(time.Millisecond)
+					} else if rerr != nil && rerr != syscall.EINTR {
+						break
+					}
+				}
 				syscall.Close(fd)
-			} else {
-				wg.Wait()
 			}
+			wg.Wait()
 		}
 	case "dev-stdin", "dev-fd":
 		r, w, err := os.Pipe()
